@@ -1,1 +1,393 @@
-pub fn placeholder() {}
+//! Engine B support: the operation vocabulary that generated drivers implement, observation
+//! helpers, and the seeded episode interpreter with its reference model (`field -> value id`).
+//!
+//! The interpreter is not generic: one compiled module runs thousands of distinct operation
+//! sequences; all randomness is drawn at run time from the seed.
+
+use std::collections::{BTreeMap, BTreeSet, HashSet};
+
+use vtypes::ledger::{self, LedgerEvent, State as LState};
+use vtypes::{Probe, Rng};
+
+pub mod interp;
+
+/// Static description of one field of a variant (written by the emitter from the definition).
+#[derive(Clone)]
+pub struct FieldMeta {
+    pub name: &'static str,
+    /// type expression as the driver writes it
+    pub ty: &'static str,
+    pub datum_id: usize,
+    /// from the definition
+    pub offset: usize,
+    pub size: usize,
+    pub align: usize,
+    pub uninit: bool,
+    /// measured where the driver is compiled
+    pub real_size: usize,
+    pub real_align: usize,
+    pub droppable: bool,
+    /// `MaybeUninit<_>`: may stay unwritten for ever
+    pub may_stay_unwritten: bool,
+    /// zero-size type with a counted destructor
+    pub zst_drop: bool,
+    /// number of ledger serials a value of this type carries
+    pub tracked: usize,
+    /// how many times cloning a value consults the clone-panic countdown
+    pub clone_points: usize,
+    pub norm: fn(u64) -> u64,
+}
+
+#[derive(Clone)]
+pub struct VariantMeta {
+    pub fields: Vec<FieldMeta>,
+    /// indices (in the previous variant's fields) of the data removed by the conversion
+    pub minus: Vec<usize>,
+    /// indices (in this variant's fields) of the data added by the conversion
+    pub plus: Vec<usize>,
+    /// number of (removed, added) pairs whose byte ranges intersect
+    pub byte_reuse_pairs: usize,
+    pub size_of: usize,
+    pub align_of: usize,
+}
+
+#[derive(Clone)]
+pub struct Meta {
+    pub module: &'static str,
+    pub history: &'static str,
+    pub cap: usize,
+    pub max_size: usize,
+    pub variants: Vec<VariantMeta>,
+    pub has_clone: bool,
+    pub has_serde: bool,
+    /// size / align of `RecordUninitialized<CAP>`
+    pub uninit_size_of: usize,
+    pub uninit_align_of: usize,
+}
+
+/// What is observed of one field value.
+#[derive(Clone, Debug, Default, PartialEq, Eq)]
+pub struct FieldObs {
+    pub ident: u64,
+    pub addr: usize,
+    pub serials: Vec<u64>,
+    /// all serials were alive in the ledger when the value was observed
+    pub alive: bool,
+    /// the field was not observed (unwritten may-be-uninit field)
+    pub skipped: bool,
+}
+
+pub fn obs<T: Probe>(t: &T) -> FieldObs {
+    let serials = t.serials();
+    let alive = serials.iter().all(|s| ledger::state(*s) == Some(LState::Live));
+    FieldObs {
+        ident: t.ident(),
+        addr: t as *const T as usize,
+        serials,
+        alive,
+        skipped: false,
+    }
+}
+
+pub fn skipped() -> FieldObs {
+    FieldObs {
+        skipped: true,
+        ..Default::default()
+    }
+}
+
+pub const NSLOTS: usize = 9;
+/// Placement of each slot.
+pub const SLOT_KIND: [&str; NSLOTS] = [
+    "stack", "stack", "box", "box", "vec", "vec", "vec", "repr_c_slot", "repr_c_slot",
+];
+
+#[derive(Clone, Debug)]
+pub enum Op {
+    /// `CappedRecordN::new(UnpackedRecordN { .. })`
+    New { slot: usize, variant: usize, ids: Vec<u64> },
+    /// `CappedRecordN::new_uninit(UnpackedUninitRecordN { mandatory fields })`
+    NewUninit { slot: usize, variant: usize, ids: Vec<u64> },
+    /// `CappedRecordN::from(UnpackedRecordN { .. })`
+    FromUnpacked { slot: usize, variant: usize, ids: Vec<u64> },
+    /// `CappedRecordN::from(UnpackedUninitRecordN { .. })`
+    FromUnpackedUninit { slot: usize, variant: usize, ids: Vec<u64> },
+    /// reads the fields in `mask` through the shared accessors
+    ReadAll { slot: usize, mask: u64 },
+    /// `*record.field_mut() = make(id)`
+    Write { slot: usize, field: usize, id: u64 },
+    /// converts the record in `slot` to the next variant. forms: 0 = full additions, 1 = only
+    /// mandatory additions, 2 / 3 = the same, returning the removed data. `ids` are indexed by
+    /// position in the target variant's `plus` list. `mask` selects which returned removed
+    /// fields are observed (by position in `minus`).
+    Convert { slot: usize, form: u8, ids: Vec<u64>, mask: u64 },
+    Unpack { slot: usize, mask: u64 },
+    Drop { slot: usize },
+    Move { from: usize, to: usize },
+    Clone { from: usize, to: usize },
+    CloneFrom { from: usize, to: usize },
+    /// clone with the injected panic armed at the k-th clone point; `clone_from` when `assign`
+    ClonePanic { from: usize, to: usize, k: usize, assign: bool },
+    SerJson { slot: usize },
+    SerBin { slot: usize },
+    /// expected encodings computed from fresh values made from `ids`
+    Expected { variant: usize, ids: Vec<u64> },
+    DeJson { slot: usize, variant: usize, text: String, via_value: bool },
+    DeBin { slot: usize, variant: usize, bytes: Vec<u8> },
+    /// builds a `Vec<CappedRecordN>` from `ids` (one row per element), converts it in place to
+    /// the next variant (form 0), abandoning the elements whose bit is clear in `keep`
+    VecConvert { variant: usize, rows: Vec<Vec<u64>>, plus_rows: Vec<Vec<u64>>, keep: u64, spare: usize },
+}
+
+#[derive(Clone, Debug, Default)]
+pub struct OpOut {
+    pub obs: Vec<FieldObs>,
+    pub rows: Vec<Vec<FieldObs>>,
+    pub text: Option<String>,
+    pub bytes: Option<Vec<u8>>,
+    pub err: Option<String>,
+    pub panicked: Option<String>,
+    pub same_buffer: bool,
+    pub same_capacity: bool,
+    pub record_addr: usize,
+}
+
+/// Implemented by the generated `State<CAP>` of every module.
+pub trait Drv {
+    fn meta(&self) -> Meta;
+    fn op(&mut self, op: &Op) -> OpOut;
+    /// address of the record stored in `slot` (0 when empty)
+    fn record_addr(&self, slot: usize) -> usize;
+    /// variant stored in `slot`
+    fn variant_in(&self, slot: usize) -> Option<usize>;
+}
+
+pub fn panic_text(p: Box<dyn std::any::Any + Send>) -> String {
+    if let Some(s) = p.downcast_ref::<String>() {
+        s.clone()
+    } else if let Some(s) = p.downcast_ref::<&'static str>() {
+        (*s).to_owned()
+    } else if p.downcast_ref::<vtypes::InjectedClonePanic>().is_some() {
+        "InjectedClonePanic".to_owned()
+    } else {
+        "<non-string panic payload>".to_owned()
+    }
+}
+
+/// Findings of a run, keyed for the runner.
+#[derive(Clone, Debug)]
+pub struct Finding {
+    pub property: &'static str,
+    pub kind: String,
+    pub detail: String,
+    pub module: String,
+    pub cap: usize,
+    pub episode: u64,
+    pub ops: Vec<String>,
+}
+
+#[derive(Default)]
+pub struct Report {
+    pub findings: Vec<Finding>,
+    pub findings_total: u64,
+    pub counters: BTreeMap<&'static str, u64>,
+    pub distinct: BTreeMap<&'static str, HashSet<u64>>,
+    pub samples: Vec<String>,
+    pub functions_covered: BTreeSet<String>,
+}
+
+impl Report {
+    pub fn count(&mut self, k: &'static str, n: u64) {
+        *self.counters.entry(k).or_default() += n;
+    }
+    pub fn finding(&mut self, f: Finding) {
+        self.findings_total += 1;
+        if self.findings.len() < 60 {
+            self.findings.push(f);
+        }
+    }
+}
+
+pub fn json_escape(s: &str) -> String {
+    let mut o = String::with_capacity(s.len() + 2);
+    for c in s.chars() {
+        match c {
+            '"' => o.push_str("\\\""),
+            '\\' => o.push_str("\\\\"),
+            '\n' => o.push_str("\\n"),
+            '\r' => o.push_str("\\r"),
+            '\t' => o.push_str("\\t"),
+            c if (c as u32) < 0x20 => o.push_str(&format!("\\u{:04x}", c as u32)),
+            c => o.push(c),
+        }
+    }
+    o
+}
+
+impl Report {
+    /// JSON text of the report (written by hand: this crate runs under Miri too and keeps its
+    /// dependencies minimal).
+    pub fn to_json(&self, extra: &[(&str, String)]) -> String {
+        let mut s = String::from("{");
+        for (k, v) in extra {
+            s.push_str(&format!("\"{}\":{},", k, v));
+        }
+        s.push_str("\"counters\":{");
+        let mut first = true;
+        for (k, v) in &self.counters {
+            if !first {
+                s.push(',');
+            }
+            first = false;
+            s.push_str(&format!("\"{}\":{}", json_escape(k), v));
+        }
+        s.push_str("},\"distinct\":{");
+        let mut first = true;
+        for (k, v) in &self.distinct {
+            if !first {
+                s.push(',');
+            }
+            first = false;
+            s.push_str(&format!("\"{}\":{}", k, v.len()));
+        }
+        s.push_str("},\"samples\":[");
+        for (i, x) in self.samples.iter().enumerate() {
+            if i > 0 {
+                s.push(',');
+            }
+            s.push_str(&format!("\"{}\"", json_escape(x)));
+        }
+        s.push_str("],\"functions_covered\":[");
+        for (i, x) in self.functions_covered.iter().enumerate() {
+            if i > 0 {
+                s.push(',');
+            }
+            s.push_str(&format!("\"{}\"", json_escape(x)));
+        }
+        s.push_str(&format!("],\"findings_total\":{},\"findings\":[", self.findings_total));
+        for (i, f) in self.findings.iter().enumerate() {
+            if i > 0 {
+                s.push(',');
+            }
+            s.push_str(&format!(
+                "{{\"property\":\"{}\",\"kind\":\"{}\",\"detail\":\"{}\",\"module\":\"{}\",\"cap\":{},\"episode\":{},\"ops\":[{}]}}",
+                f.property,
+                json_escape(&f.kind),
+                json_escape(&f.detail),
+                json_escape(&f.module),
+                f.cap,
+                f.episode,
+                f.ops
+                    .iter()
+                    .map(|o| format!("\"{}\"", json_escape(o)))
+                    .collect::<Vec<_>>()
+                    .join(",")
+            ));
+        }
+        s.push_str("]}");
+        s
+    }
+}
+
+/// Drains the ledger events.
+pub fn ledger_events() -> Vec<LedgerEvent> {
+    ledger::take_events()
+}
+
+#[cfg(feature = "hooks")]
+pub fn hook_events() -> Vec<String> {
+    truc_runtime::data::verif::take_events()
+        .into_iter()
+        .map(|e| {
+            format!(
+                "{:?} access={:?} offset={} size={} align={} cap={} type={}",
+                e.kind, e.access, e.offset, e.size, e.align, e.cap, e.type_name
+            )
+        })
+        .collect()
+}
+
+#[cfg(not(feature = "hooks"))]
+pub fn hook_events() -> Vec<String> {
+    Vec::new()
+}
+
+#[cfg(feature = "hooks")]
+pub fn hook_counters() -> Vec<(&'static str, u64)> {
+    let c = truc_runtime::data::verif::counters();
+    vec![
+        ("hook.reads", c.reads),
+        ("hook.writes", c.writes),
+        ("hook.gets", c.gets),
+        ("hook.get_muts", c.get_muts),
+        ("hook.buffer_drops", c.buffer_drops),
+        ("hook.droppable_reads", c.droppable_reads),
+        ("hook.droppable_writes", c.droppable_writes),
+        ("hook.misaligned_store_destinations", c.misaligned_store_destinations),
+        ("hook.bytes_checked", c.bytes_checked),
+        ("hook.events", c.events),
+    ]
+}
+
+#[cfg(not(feature = "hooks"))]
+pub fn hook_counters() -> Vec<(&'static str, u64)> {
+    Vec::new()
+}
+
+pub const HOOKS_ON: bool = cfg!(feature = "hooks");
+
+/// Shared entry point of the generated drivers' `main`.
+pub struct RunArgs {
+    pub seed: u64,
+    pub episodes: u64,
+    pub max_ops: usize,
+    pub shard: u64,
+    pub nshards: u64,
+    pub modules: Option<Vec<String>>,
+    pub readback_every: usize,
+    pub replay: Option<(String, usize, u64)>,
+    /// skip serialisation operations (their dependencies trip Miri's symbolic alignment check)
+    pub no_serde: bool,
+    /// only episodes are run, no static layout checks output
+    pub only_caps: Option<Vec<usize>>,
+}
+
+impl RunArgs {
+    pub fn parse() -> RunArgs {
+        let args: Vec<String> = std::env::args().collect();
+        let get = |k: &str| -> Option<String> {
+            args.iter()
+                .position(|a| a == k)
+                .and_then(|i| args.get(i + 1))
+                .cloned()
+        };
+        let num = |k: &str, d: u64| get(k).and_then(|v| v.parse().ok()).unwrap_or(d);
+        RunArgs {
+            seed: num("--seed", 1),
+            episodes: num("--episodes", 200),
+            max_ops: num("--max-ops", 40) as usize,
+            shard: num("--shard", 0),
+            nshards: num("--nshards", 1).max(1),
+            modules: get("--modules").map(|m| m.split(',').map(|s| s.to_owned()).collect()),
+            readback_every: num("--readback-every", 1) as usize,
+            no_serde: args.iter().any(|a| a == "--no-serde"),
+            only_caps: get("--caps").map(|c| c.split(',').filter_map(|x| x.parse().ok()).collect()),
+            replay: get("--replay").map(|r| {
+                // module:cap:episode
+                let p: Vec<&str> = r.split(':').collect();
+                (
+                    p[0].to_owned(),
+                    p[1].parse().unwrap_or(0),
+                    p[2].parse().unwrap_or(0),
+                )
+            }),
+        }
+    }
+}
+
+pub fn rng_for(seed: u64, module: &str, cap: usize, episode: u64) -> Rng {
+    Rng::stream(
+        seed ^ vtypes::fnv64(module.as_bytes()) ^ (cap as u64).wrapping_mul(0x9E37_79B9),
+        episode,
+    )
+}
